@@ -44,7 +44,9 @@ func applyCore() {
 	doc := docShape(shape, "d.")
 	ops := make([]Op, K)
 	for i := range ops {
-		ops[i] = genOp("op"+itoa(i), vx.Param("kmask"+itoa(i)), 0, vx.Param("maxtok"), vx.Param("tokmask"), vx.Param("nvals"))
+		mx := vx.ParamOr("maxtok"+itoa(i), vx.Param("maxtok"))
+		mn := vx.ParamOr("mintok"+itoa(i), 0)
+		ops[i] = genOp("op"+itoa(i), vx.Param("kmask"+itoa(i)), mn, mx, vx.Param("tokmask"), vx.Param("nvals"))
 	}
 	checkApply(doc, ops)
 }
